@@ -233,6 +233,13 @@ def enum_arm_target(body, bb, variant):
     return t["otherwise"]
 
 
+def _payload_proj(pl):
+    pr = [p for p in pl["p"] if p["k"] != "deref"]
+    if len(pr) == 2 and pr[0]["k"] == "downcast" and pr[1]["k"] == "field" and pr[1]["n"] == "0":
+        return pr[0]["v"]
+    return None
+
+
 def variant_sources(body, l, depth=0):
     """where the value of enum-typed local l is made: [(variant or None, block)] - `l = V(..)` gives (V, block), a move
     of another local / `Try::branch` of one is followed, any other definition (a call, a projection) gives
@@ -251,6 +258,23 @@ def variant_sources(body, l, depth=0):
             elif rv["k"] == "use" and rv["op"]["k"] in ("copy", "move") and not [p for p in rv["op"]["pl"]["p"] if p["k"] != "deref"]:
                 r = variant_sources(body, rv["op"]["pl"]["l"], depth + 1)
                 out += r if r is not None else [(None, d[0])]
+            elif rv["k"] == "use" and rv["op"]["k"] in ("copy", "move") and _payload_proj(rv["op"]["pl"]) is not None:
+                # `(w as Ready).0` / `(w as Some).0` where w is only ever built as that wrapper around a local
+                V = _payload_proj(rv["op"]["pl"])
+                inner = []
+                okw = True
+                wds = [x for x in body.defs.get(rv["op"]["pl"]["l"], []) if not (x[2] and not all(p["k"] == "deref" for p in x[2]))]
+                for x in wds:
+                    if x[3] == "rv" and x[4]["k"] == "agg" and x[4].get("variant") == V and x[4]["ops"] and x[4]["ops"][0]["k"] in ("copy", "move") \
+                            and not [p for p in x[4]["ops"][0]["pl"]["p"] if p["k"] != "deref"]:
+                        r = variant_sources(body, x[4]["ops"][0]["pl"]["l"], depth + 1)
+                        if r is None:
+                            okw = False
+                        else:
+                            inner += r
+                    else:
+                        okw = False
+                out += inner if (okw and wds) else [(None, d[0])]
             else:
                 out.append((None, d[0]))
         elif d[3] == "call":
@@ -262,6 +286,10 @@ def variant_sources(body, l, depth=0):
                     out.append((None, d[0]))
                 else:
                     out += [({"Ok": "Continue", "Some": "Continue", "Err": "Break", "None": "Break"}.get(v, v), b) for v, b in r]
+            elif canon(fn.get("def") or "") == "std::ops::FromResidual::from_residual":
+                # the residual of `?`: an error / None by construction
+                rty = d[4].get("rty") or ""
+                out.append(("Err" if rty.startswith("std::result::Result") else ("None" if rty.startswith("std::option::Option") else None), d[0]))
             else:
                 out.append((None, d[0]))
         else:
